@@ -46,6 +46,21 @@ CLAIMED['C09'] = dict(design='2/C09', text='Instance::penalty_method and uniform
     'objective equals f + sum w_c g_c^2 (resp. w * sum g_c^2) coefficient-wise.',
     note='R-model with bounded coefficient magnitudes; the defect found by this check (previously removed constraints dropped) was repaired by a fix: commit, see known_findings.json; '
     'library models trusted and validated natively each run.')
+CLAIMED['C10'] = dict(design='2/C10', text='ParametricInstance::with_parameters (and the partial_evaluate bodies it drives) is executed symbolically: parameters anywhere in objective '
+    'and active constraints (degree<=3, every id pattern over variable/parameter ids), each declared parameter supplied or missing, an unrelated extra id, symbolic values. '
+    'z3 proves Err iff a declared parameter is missing; otherwise every function equals the parametric function with the parameters evaluated (coefficient-wise), variables, sense, '
+    'constraint ids, removed constraints and hints are unchanged and the supplied values are recorded. Instance -> ParametricInstance -> with_parameters(empty) keeps every function.',
+    note='R-model with bounded magnitudes; epsilon-dropping allowance; library models trusted and validated natively each run.')
+CLAIMED['C11'] = dict(design='2/C11', text='Instance::as_pubo_format / as_qubo_format (with the term iterators, BinaryIds / BinaryIdPair conversions and orderings) are executed symbolically on '
+    'objectives of degree<=4 with <=3 monomials and every id pattern over 3 variables (repeated ids, x^2, cancelling terms), symbolic coefficients, both senses, with/without an active '
+    'constraint and a non-binary variable. Since two multilinear polynomials agree on {0,1}^n iff their coefficients agree, z3 proves the exported dictionary equals the objective reduced '
+    'modulo x^2=x coefficient-wise (all 2^n assignments at once), keys canonical, no stored zero, and refusal exactly under the stated conditions.',
+    note='R-model; n=3 variables (the property bounds n<=12); library models trusted and validated natively each run.')
+CLAIMED['C15'] = dict(design='2/C15', text='Instance::as_minimization_problem is executed symbolically for every objective arm and both senses (once and twice): sense becomes minimise, the objective '
+    'is negated exactly for maximisation (coefficient-wise, exact), everything else untouched. SampleSet::best_feasible(_unrelaxed)(_id) is executed on sample sets with 1..3 (quick) / 4 '
+    '(thorough) samples, symbolic objective values (ties are solver cases), every feasibility pattern of both tables, both senses, the legacy and the current feasibility layout and every '
+    'grouping of equal values: the returned sample is feasible in the requested sense and unbeaten, Err iff none is feasible, the returned Solution is that sample.',
+    note='R-model; NaN objectives outside; more than 4 samples outside (property: 8); library models trusted and validated natively each run.')
 NOT_APPLICABLE = {
     'C20': 'artifact round-trip lives in ocipkg/tar/sha2/serde_json/chrono and the file system: none of it is in the crate MIR and all of it is foreign/IO under Kani; a model would verify the model, not the code',
 }
